@@ -43,6 +43,12 @@ def main():
     meta["suite_missing"] = missing
     print(f"pinned suite on the changed tree: {len(missing)} of the 609 stable tests no longer pass {missing[:3]}")
     meta["checks"] = {}
+    try:      # keep the results of earlier runs for other properties
+        old = json.load(open(os.path.join(ROOT, "seeded", sid, "meta.json")))
+        meta["checks"] = {k: v for k, v in old.get("checks", {}).items() if k not in props}
+        meta["properties"] = sorted(set(old.get("properties", [])) | set(props))
+    except Exception:
+        pass
     for p in props:
         env = dict(os.environ, VERIF_REPO=wt, PYTHONPATH=wt)
         t0 = time.time()
